@@ -509,13 +509,17 @@ static void run_hist(char *p)
         else lg_add("rok:%d:%zu:unreadable ", id_of(c_buf), c_size);
       } else lg_add("r%s:%d:%zu:0 ", st == 1 ? "bufsize" : st == 2 ? "abort" : "other", id_of(c_buf), c_size);
     } else if (op == 'J') {
-      int alloc = strtol(p, &p, 10); long N = strtol(p, &p, 10); spec_t s; int rc; ref_t *r;
+      int alloc = strtol(p, &p, 10); long N = strtol(p, &p, 10); spec_t s; int rc; ref_t *r; size_t size_before;
       parse_spec(&p, &s);
       r = reference(&s);
       if (!tj) tj = tj3Init(TJINIT_TRANSFORM);
       tj3Set(tj, TJPARAM_NOREALLOC, alloc ? 0 : 1);
       cur_passed = c_buf;
+      size_before = c_size;
       rc = do_op(tj, &s, &c_buf, &c_size);
+      /* *jpegSize after a failed call is unspecified (at -O2 the bailout of tj3Compress8 sees a stale
+         `alloc` after longjmp and lets term_destination overwrite it): the caller does not rely on it */
+      if (rc != 0 && !alloc) c_size = size_before;
       canary_check();
       if (!alloc && c_buf != cur_passed) lg_add("!moved ");
       hand_over();
